@@ -225,7 +225,9 @@ func Shapes() map[string]*Flow {
 		"pthru":  {Types: st(2), Params: []int{0}, Results: []int{0, 1}, Tasks: []Task{{In: []int{0}, Out: []int{1}}}},
 		// dup3: one task consumes two results of one provider plus one of another
 		// (the generated dependency list names the first provider twice)
-		"dup3": {Types: st(4), Results: []int{3}, Tasks: []Task{{Out: []int{0, 1}, Err: true}, {Out: []int{2}, Err: true}, {In: []int{0, 1, 2}, Out: []int{3}, Err: true}}},
+		// dupres: the same type requested twice by cff.Results
+		"dupres": {Types: st(2), Params: []int{0}, Results: []int{1, 1}, Tasks: []Task{{In: []int{0}, Out: []int{1}, Err: true}}},
+		"dup3":   {Types: st(4), Results: []int{3}, Tasks: []Task{{Out: []int{0, 1}, Err: true}, {Out: []int{2}, Err: true}, {In: []int{0, 1, 2}, Out: []int{3}, Err: true}}},
 	}
 }
 
@@ -286,7 +288,7 @@ func (p *Parallel) Clone() *Parallel {
 
 // ShapeNames lists the shapes in a fixed order.
 func ShapeNames() []string {
-	return []string{"single", "source", "chain2", "chain3", "fork", "join", "diamond", "multi", "invoke", "indep3", "pthru", "dup3"}
+	return []string{"single", "source", "chain2", "chain3", "fork", "join", "diamond", "multi", "invoke", "indep3", "pthru", "dup3", "dupres"}
 }
 
 // ---------------------------------------------------------------- listing orders
